@@ -36,7 +36,11 @@ func main() {
 		os.Exit(cmdReplay(os.Args[2:]))
 	case "scenario":
 		// goatvc scenario <file.go.tmpl>: run one hand-written history against /repo
-		out, ok := runOverlayTest("/repo", os.Args[2])
+		repoDir := "/repo"
+		if len(os.Args) > 3 {
+			repoDir = os.Args[3] // optional: a scratch copy
+		}
+		out, ok := runOverlayTest(repoDir, os.Args[2])
 		fmt.Println(out)
 		if ok {
 			fmt.Println("scenario: reproduced on the real code")
